@@ -64,6 +64,14 @@ ViolD(e) ==
     \cup Bad("project-unit", e.punit)
     \cup Bad("project-realises", FBetween(e.dplo, e.dp, e.dphi))
     \cup Bad("project-on-edge", FLeq(e.pe, e.petol))
+    \* angle domain: DistanceFromSegment (xplo/xphi = it -+ tolerance) against Point.Distance
+    \* from x to the projected point (xp), which does not go through the chord representation
+    \cup Bad("segment-angle", FBetween(e.xplo, e.xp, e.xphi))
+    \* class latitude: the distance is known by construction (latlo/lathi = latitude -+ documented
+    \* error); rt = ChordAngleFromAngle(latitude).Angle() must round-trip to 8 ulps
+    \cup (IF e.lat THEN Bad("latitude", FBetween(e.latlo, e.dsegl, e.lathi))
+                       \cup Bad("chord-angle-roundtrip", FBetween(e.rtlo, e.rt, e.rthi))
+          ELSE {})
     \cup UNION {ThreshD(e, t) : t \in RangeOf(e.th)}
 
 \* ---- "I" -------------------------------------------------------------------
